@@ -46,6 +46,7 @@ def setCfg (c : CodecCfg) (kv : String) : Option CodecCfg :=
     | "man.nilPayloadOp" => do let b ← two "le" "lt"; pure { c with manNilPayloadLt := b }
     | "entry.alloc" => do let b ← two "declared" "bounded"; pure { c with entryAllocBounded := b }
     | "vs.decodeGuard" => do let b ← two "none" "checked"; pure { c with vsDecodeChecked := b }
+    | "enc.fresh" => if v == "true" then some c else none
     | "vs.sizeVarint" => if v == "loop7" then some c else none
     | "key.parseTsMin" => do let o ← CmpOp.ofString? v; pure { c with parseTsMin := o }
     | "key.tsEnc" => some { c with tsInverted := v == "maxminus" }
@@ -390,4 +391,35 @@ def step (c : CodecCfg) (toks : List String) : CodecCfg × String :=
     else (c, "bad-op")
   | _ => (c, "bad-op")
 
-def main : IO Unit := Driver.loop CodecCfg.good step
+/-- Driver state: the configuration and the payloads held by `hold` (slot ↦ reply of the
+`X.rt` op that produced it).  Encoders are pure functions in the model, so a held payload
+never changes: `check` replays the reply.  Multi-payload ops:
+  hold SLOT X.rt ARGS…   encode, keep the payload alive        -> `<hex>`
+  check SLOT             decode the held payload now           -> `<decode outcome> <hex>`
+  gc                     garbage collection in the worker      -> `ok` -/
+structure DSt where
+  cfg : CodecCfg := CodecCfg.good
+  slots : List (String × String) := []
+
+def lastTok (s : String) : String := ((s.splitOn " ").getLast?).getD ""
+
+def step2 (st : DSt) (toks : List String) : DSt × String :=
+  match toks with
+  | "hold" :: slot :: rest =>
+    let r := (step st.cfg rest).2
+    match r.splitOn "\t" with
+    | [m, _] =>
+      if rest.head?.any (fun o => o.endsWith ".rt") then
+        ({ st with slots := (slot, r) :: st.slots.filter (fun p => p.1 != slot) }, reply (lastTok m) "*")
+      else (st, "bad-op")
+    | _ => (st, "bad-op")
+  | ["check", slot] =>
+    match st.slots.find? (fun p => p.1 == slot) with
+    | some p => (st, p.2)
+    | none => (st, reply "bad-slot" "*")
+  | ["gc"] => (st, reply "ok" "*")
+  | _ =>
+    let r := step st.cfg toks
+    ({ st with cfg := r.1 }, r.2)
+
+def main : IO Unit := Driver.loop ({} : DSt) step2
